@@ -7,6 +7,7 @@ and for every op line
 -/
 import Kap.Spec.C05
 import Kap.Gen.C05
+import Kap.Model.C05Parse
 open Kap Kap.C05
 
 namespace Kap.C05.Drv
@@ -63,6 +64,79 @@ def visited (c : Ctx) : Nat → Lx → St → List String → List String
     match step c l s with
     | .cont l' s' => if l'.trapped then acc else visited c k l' s' acc
     | .done _ => acc
+
+/-! ### The parser model's literal oracles, as the Go library decides them -/
+
+def isAsciiDigit (b : Nat) : Bool := 0x30 ≤ b && b ≤ 0x39
+def natOfDigits (base : Nat) (bs : Bytes) : Nat := bs.foldl (fun a b => a * base + (b - 0x30)) 0
+def maxInt64 : Nat := 9223372036854775807
+
+/-- `newNumber`: a `.` → `strconv.ParseFloat`, a leading 0 → octal `ParseInt`, otherwise decimal `ParseInt`. -/
+def numOk (t : Bytes) : Bool :=
+  if t.contains 0x2E then (t.filter (· != 0x2E)).all isAsciiDigit && t.length < 300
+  else if !(t.all isAsciiDigit) then false
+  else if t.head? == some 0x30 && t.length > 1 then t.all (fun b => b < 0x38) && natOfDigits 8 t ≤ maxInt64
+  else natOfDigits 10 t ≤ maxInt64
+
+/-- `influxql.ParseDuration` on digits + one unit (what the scanner emits as a duration token). -/
+def durOk (t : Bytes) : Bool :=
+  let ds := t.takeWhile isAsciiDigit
+  let n := natOfDigits 10 ds
+  let mult : Option Nat := match t.drop ds.length with
+    | [0x75] => some 1000 | [0xC2, 0xB5] => some 1000 | [0x6D, 0x73] => some 1000000
+    | [0x73] => some 1000000000 | [0x6D] => some 60000000000 | [0x68] => some 3600000000000
+    | [0x64] => some 86400000000000 | [0x77] => some 604800000000000 | _ => none
+  if ds.isEmpty || n > maxInt64 then false
+  else match mult with
+    | none => false
+    | some m => (n * m) % 18446744073709551616 < 9223372036854775808      -- `d < 0` after int64 wrap-around
+
+def isAlnum (b : Nat) : Bool := isAsciiDigit b || (0x41 ≤ b && b ≤ 0x5A) || (0x61 ≤ b && b ≤ 0x7A)
+
+/-- `regexp.Compile` decided for the fragment without repetition / class syntax: literals, `.`, `|`, `^`, `$`,
+groups, `\` + punctuation, `\a`, `\1`; `none` = outside the fragment (the tie is then skipped). -/
+def reDecide : Nat → Bytes → Option Bool
+  | depth, [] => some (depth == 0)
+  | depth, b :: rest =>
+    if b == 0x2A || b == 0x2B || b == 0x3F || b == 0x7B || b == 0x5B then none
+    else if b == 0x28 then reDecide (depth + 1) rest
+    else if b == 0x29 then (if depth == 0 then some false else reDecide (depth - 1) rest)
+    else if b == 0x5C then
+      match rest with
+      | [] => some false
+      | x :: rest' =>
+        if x ≥ 0x80 then some false
+        else if !isAlnum x then reDecide depth rest'
+        else if x == 0x61 then reDecide depth rest'
+        else if x == 0x31 then
+          match rest' with
+          | y :: _ => if 0x30 ≤ y && y ≤ 0x37 then none else some false
+          | [] => some false
+        else none
+    else if b ≥ 0x80 then
+      let d := decodeRune (b :: rest)
+      if d.1 == runeError && d.2 == 1 then none else reDecide depth (rest.drop (d.2 - 1))
+    else reDecide depth rest
+termination_by _ bs => bs.length
+decreasing_by all_goals simp_wf <;> omega
+
+/-- The model's verdict on `ast.Parse` (`lambda = false`) / `ast.ParseLambda`; `none` when it hinges on a
+regex outside the decided fragment. -/
+def modelParse (c : Ctx) (lambda : Bool) : Option POut :=
+  let mkE (d : Bool) : PEnv := ⟨c, ⟨numOk, durOk, fun u => (reDecide 0 u).getD d⟩⟩
+  let run (e : PEnv) := if lambda then parseLambda e (parseDepth e) else parseScript e (parseDepth e)
+  let a := run (mkE true)
+  let b := run (mkE false)
+  if a == b then some a else none
+
+/-- Compare with what the entry point answered (`ok` / `err`); `some msg` = the tie is broken. -/
+def tieParse (c : Ctx) (lambda : Bool) (res : String) : Option String × String :=
+  match modelParse c lambda with
+  | none => (none, "parsetie.skipped-regex")
+  | some .ok => (if res == "ok" then none else some s!"parser model ok, observed {res}", "parsetie.ok")
+  | some .err => (if res == "err" then none else some s!"parser model err, observed {res}", "parsetie.err")
+  | some .trap => (some s!"parser model TRAPS, observed {res}", "parsetie.trap")
+  | some .fuel => (some s!"parser model out of depth, observed {res}", "parsetie.fuel")
 
 structure Acc where
   br : List String := []
@@ -139,7 +213,13 @@ def judgeLine (a : Acc) (l : String) : Except Verdict Acc := do
     -- tie: the lexer goroutine is gone afterwards, however many tokens the parser took
     if !lexerGoroutineExits c (Gen.stopParseDrains == some true) 0 then
       throw (.mismatch s!"parse {kind} {inp}: model says the lexer goroutine stays blocked, none was observed")
-    pure ((a.add [s!"parse.{kind}.{res}"]))
+    -- tie: the parser model's ok / err verdict is the entry point's
+    let mut tieBr : List String := []
+    if kind == "prog" || kind == "lambda" then
+      let (bad, b) := tieParse c (kind == "lambda") res
+      if let some m := bad then throw (.mismatch s!"parse {kind} {inp}: {m}")
+      tieBr := [b]
+    pure ((a.add (s!"parse.{kind}.{res}" :: tieBr)))
   | ["getnode", tag] =>
     let some tag := unesc tag | throw (.badop l)
     let res := match obs with | ["X", how] => how | [r] => r | _ => "?"
@@ -233,7 +313,13 @@ def judgeLine (a : Acc) (l : String) : Except Verdict Acc := do
         let c : Ctx := { inp := bs.map (·.toNat), cls := cl, fixed := Gen.peekRestoresWidth == some true }
         let lexErr := match lexRun c with | .done ts => endsInError ts | _ => true
         if lexErr && res != "eee" then throw (.mismatch s!"pbatch {inp}: lexer model ends in an error token but the entry points answered {res}")
-        acc := acc.add [s!"pbatch.{res}"]
+        -- tie: the parser model's ok / err verdict is the entry point's (Parse = 1st letter, ParseLambda = 3rd)
+        let word (ch : Char) : String := if ch == 'o' then "ok" else if ch == 'e' then "err" else "panic"
+        let (bad1, b1) := tieParse c false (word (res.toList.getD 0 '?'))
+        if let some m := bad1 then throw (.mismatch s!"pbatch {inp}: Parse: {m}")
+        let (bad2, b2) := tieParse c true (word (res.toList.getD 2 '?'))
+        if let some m := bad2 then throw (.mismatch s!"pbatch {inp}: ParseLambda: {m}")
+        acc := acc.add [s!"pbatch.{res}", b1, "l" ++ b2]
       if leak != 0 then throw (.specfail "no-goroutine-leak" s!"pbatch: {leak} goroutine(s) left behind")
       pure { acc with nt := true }
   | ["http", method, _path, enc, _body] =>
